@@ -14,6 +14,7 @@ import JsonV.Lemmas.WireString
 import JsonV.Lemmas.WireValue
 import JsonV.Lemmas.WireFuel
 import JsonV.Lemmas.WireComplete
+import JsonV.Lemmas.WireTokenTop
 import JsonV.Lemmas.GlueResume
 import JsonV.Lemmas.GlueResumeStr
 import JsonV.Gen.Constants
@@ -153,16 +154,28 @@ theorem number_eof (b : Bytes) : (consumeNumber b).2 = .eof ↔ NumPrefix b ∧ 
       obtain ⟨g1, _, _, g4⟩ := hg
       exact absurd (dead_next .start b _ g4 g1) (live_whole _ b _ h1)
 
-/-- otherwise an invalid character is reported at `n`: the first `n` bytes are a proper viable prefix,
-the next byte makes the input unextendable. -/
-theorem number_invalid_sound (b : Bytes) (n : Nat) (h : consumeNumber b = (n, .invalidChar)) :
-    n < b.length ∧ NumPrefix (b.take n) ∧ ¬ JNumber (b.take n) ∧ ¬ NumPrefix (b.take (n + 1)) := by
+/-- otherwise an invalid character is reported at `n`: exactly when the first `n` bytes are a viable prefix that
+is not a number and the next byte makes the input unextendable. -/
+theorem number_invalid (b : Bytes) (n : Nat) :
+    consumeNumber b = (n, .invalidChar) ↔
+      n < b.length ∧ NumPrefix (b.take n) ∧ ¬ JNumber (b.take n) ∧ ¬ NumPrefix (b.take (n + 1)) := by
   have hg := good_consumeNumber b
-  rw [h] at hg
-  obtain ⟨g1, g2, g3, g4⟩ := hg
-  refine ⟨g1, (numPrefix_iff_live _).2 g2, ?_, ?_⟩
-  · rw [jnumber_iff_acc]; simp [g3]
-  · rw [numPrefix_iff_live]; simpa using dead_next .start b n g4 g1
+  constructor
+  · intro h
+    rw [h] at hg
+    obtain ⟨g1, g2, g3, g4⟩ := hg
+    refine ⟨g1, (numPrefix_iff_live _).2 g2, ?_, ?_⟩
+    · rw [jnumber_iff_acc]; simp [g3]
+    · rw [numPrefix_iff_live]; simpa using dead_next .start b n g4 g1
+  · rintro ⟨h1, h2, h3, h4⟩
+    rw [numPrefix_iff_live] at h2 h4
+    rw [jnumber_iff_acc] at h3
+    have := scan_invalid_unique b n h1 h2 (by simpa using h3) (by simpa using h4) _ _ hg
+    exact Prod.ext this.2 this.1
+
+theorem number_invalid_sound (b : Bytes) (n : Nat) (h : consumeNumber b = (n, .invalidChar)) :
+    n < b.length ∧ NumPrefix (b.take n) ∧ ¬ JNumber (b.take n) ∧ ¬ NumPrefix (b.take (n + 1)) :=
+  (number_invalid b n).1 h
 
 theorem number_total (b : Bytes) :
     (consumeNumber b).2 = .ok ∨ (consumeNumber b).2 = .eof ∨ (consumeNumber b).2 = .invalidChar :=
@@ -311,20 +324,57 @@ theorem stream_eof_at_end (o : VOpts) (b : Bytes) (cnt off : Nat) (h : stream o 
 example : stream {} [0x31, 0x20, 0x32] = (2, 3, .ioEOF) := by decide +kernel
 example : stream {} [0x31, 0x2E, 0x35, 0x32, 0x2E, 0x35] = (1, 4, .invalidChar) := by decide +kernel
 
-/-- The one full statement that is NOT proved; it is validated by the correspondence runs (the harness compares
-both model paths with each other and each with the code on every input).
-"read by tokens or by values": the ReadToken loop and the ReadValue loop complete the same number of
-top-level values and end cleanly (io.EOF) on exactly the same inputs (no slice exceeds 2^61 bytes). -/
-def token_value_full : Prop :=
-  ∀ (o : VOpts) (b : Bytes), b.length < 2 ^ 61 →
-    ((Model.TokenLoop.tokens o b).1 = (stream o b).1 ∧
-     ((Model.TokenLoop.tokens o b).2.2 = .ioEOF ↔ (stream o b).2.2 = .ioEOF))
+/-! ### Read by tokens or by values -/
 
--- `[1,{"a":null}] ` is accepted; `[1,]` is rejected at offset 3; two equal names are rejected unless allowed
-example : isValid {} [0x5B, 0x31, 0x2C, 0x7B, 0x22, 0x61, 0x22, 0x3A, 0x6E, 0x75, 0x6C, 0x6C, 0x7D, 0x5D, 0x20] = true := by decide +kernel
-example : validText {} [0x5B, 0x31, 0x2C, 0x5D] = (3, .invalidChar) := by decide +kernel
-example : validText {} [0x7B, 0x22, 0x61, 0x22, 0x3A, 0x31, 0x2C, 0x22, 0x61, 0x22, 0x3A, 0x32, 0x7D] = (7, .dupName) := by decide +kernel
-example : isValid ⟨false, true⟩ [0x7B, 0x22, 0x61, 0x22, 0x3A, 0x31, 0x2C, 0x22, 0x61, 0x22, 0x3A, 0x32, 0x7D] = true := by decide +kernel
+/-- **The token path and the value path give the same verdict**: for every byte string (shorter than 2^61 bytes —
+the state machine packs its counters into 61 bits — which every Go slice is) and every combination of the two
+options, the ReadToken loop (Model/TokenLoop.lean: `readToken` over slice C06's state machine, with the duplicate-name
+namespaces) reads the input as exactly one complete top-level value followed by io.EOF iff `Value.IsValid`'s value
+path accepts it.  Proved by a simulation that follows the value path's recursion: wherever the value path accepts
+a value the token loop reads its tokens and arrives in the corresponding machine state, wherever it rejects the
+token loop does not end with io.EOF either (Lemmas/WireTokenSim.lean). -/
+theorem token_value (o : VOpts) (b : Bytes) (hlen : b.length + 2 < 2 ^ 61) :
+    Model.TokenLoop.isValidByTokens o b = isValid o b :=
+  JsonV.Lemmas.WireTokenTop.token_valid_eq o b hlen
+
+/-- Hence the token path accepts exactly the grammar as well. -/
+theorem tokens_iff (o : VOpts) (b : Bytes) (hlen : b.length + 2 < 2 ^ 61) :
+    Model.TokenLoop.isValidByTokens o b = true ↔ JText (gopts o) maxNestingDepth (nameKey o) b := by
+  rw [token_value o b hlen]; exact valid_iff o b
+
+/-- `tokens_complete` / `tokens_sound`, the two halves spelled out -/
+theorem tokens_complete (o : VOpts) (b : Bytes) (hlen : b.length + 2 < 2 ^ 61)
+    (h : JText (gopts o) maxNestingDepth (nameKey o) b) : Model.TokenLoop.isValidByTokens o b = true :=
+  (tokens_iff o b hlen).2 h
+
+theorem tokens_sound (o : VOpts) (b : Bytes) (hlen : b.length + 2 < 2 ^ 61)
+    (h : Model.TokenLoop.isValidByTokens o b = true) : JText (gopts o) maxNestingDepth (nameKey o) b :=
+  (tokens_iff o b hlen).1 h
+
+-- `{"a":[1,null]}` read by tokens: one value, clean end
+example : Model.TokenLoop.isValidByTokens {} [0x7B, 0x22, 0x61, 0x22, 0x3A, 0x5B, 0x31, 0x2C, 0x6E, 0x75, 0x6C, 0x6C, 0x5D, 0x7D] = true := by
+  decide +kernel
+
+/-- **Stream-level agreement**: over any input (shorter than 2^61 bytes) the ReadToken loop and the ReadValue loop
+complete the same number of top-level values, and one ends with io.EOF iff the other does. -/
+theorem token_stream (o : VOpts) (b : Bytes) (hlen : b.length + 2 < 2 ^ 61) :
+    (Model.TokenLoop.tokens o b).1 = (stream o b).1 ∧
+    ((Model.TokenLoop.tokens o b).2.2 = .ioEOF ↔ (stream o b).2.2 = .ioEOF) :=
+  JsonV.Lemmas.WireTokenTop.token_stream_eq o b hlen
+
+/-- Hence the ReadToken loop, too, ends with io.EOF exactly on the streams of the grammar. -/
+theorem tokens_stream_iff (o : VOpts) (b : Bytes) (hlen : b.length + 2 < 2 ^ 61) :
+    (Model.TokenLoop.tokens o b).2.2 = .ioEOF ↔ JStream (gopts o) maxNestingDepth (nameKey o) b := by
+  rw [(token_stream o b hlen).2]
+  constructor
+  · intro h
+    rcases hs : stream o b with ⟨cnt, off, e⟩
+    rw [hs] at h
+    simp only at h; subst h
+    exact stream_sound o b cnt off hs
+  · intro h
+    obtain ⟨cnt, hc⟩ := stream_complete o b h
+    rw [hc]
 
 /-! ### Glue with slice C05 (Model/Resume.lean): the two model copies of the scanners are equal -/
 
